@@ -113,7 +113,10 @@ CLAIMED = {
               "(any nesting below) the level of reporting: UncaughtTimeoutError leaves a block only when a TaskTimeout or that very "
               "error left its body, TaskTimeout only when it left the body or the block itself expired, an ignore block ends quietly "
               "only when its body did or it expired itself. "
-              "Correspondence: random programs compiled to real coroutines on a virtual-time loop, per-block comparison."),
+              "Correspondence: random programs compiled to real coroutines on a virtual-time loop, per-block comparison. "
+              "Known finding F21: the program DSL has no finally clause; for cleanup code that keeps awaiting after a timeout fired "
+              "four clauses fail on the implementation and in the translated primitives alike (C11_F21_*_refuted, witnesses by "
+              "vm_compute; the same four programs run on aiorpcx.curio on every run and must give exactly the recorded outcomes)."),
         note=TB + "Partial: equal timer instants (asyncio heap order) are excluded and detected at run time; the event loop and Task.cancel semantics are those of CPython 3.12.1 as modelled by the three wake-up sources of `await`.",
         technique="Coq proof (structural induction over programs, symbolic execution with lia for the nesting theorems) + vm_compute correspondence against aiorpcx.curio on a virtual clock",
         ref='6/C11'),
